@@ -19,7 +19,8 @@ import warnings
 from array import array
 from collections.abc import Callable
 from functools import wraps
-from multiprocessing import Array, Process, Queue as mp_Queue, RLock as mp_RLock
+from multiprocessing import Queue as mp_Queue, current_process, get_context
+from multiprocessing.process import BaseProcess
 from operator import floordiv
 from queue import Empty, Queue
 from shutil import get_terminal_size as _get_terminal_size
@@ -756,10 +757,14 @@ def _process_start_wrapper(self, *args, **kwargs):
     # (may acquire the new lock in a nested call while still holding the old lock)
     # out of sync until it has fully released the old lock.
 
+    # Synchronization primitives created in the "spawn" context can be shared with
+    # processes started by any method (inherited on "fork", pickled otherwise).
+    mp_context = get_context("spawn")
+
     with _tty_lock:
         if isinstance(_tty_lock, _rlock_type):
             try:
-                self._tty_lock = _tty_lock = mp_RLock()
+                self._tty_lock = _tty_lock = mp_context.RLock()
             except ImportError:
                 self._tty_lock = None
                 warnings.warn(
@@ -781,7 +786,9 @@ def _process_start_wrapper(self, *args, **kwargs):
     with _cell_size_lock:
         if isinstance(_cell_size_lock, _rlock_type):
             try:
-                self._cell_size_cache = _cell_size_cache = Array("i", _cell_size_cache)
+                self._cell_size_cache = _cell_size_cache = mp_context.Array(
+                    "i", _cell_size_cache
+                )
                 _cell_size_lock = _cell_size_cache.get_lock()
             except ImportError:
                 self._cell_size_cache = None
@@ -792,14 +799,20 @@ def _process_start_wrapper(self, *args, **kwargs):
 
 
 @no_type_check
-def _process_run_wrapper(self, *args, **kwargs):
+def _adopt_process_locks(process):
+    """Adopts the synchronization primitives handed over by the parent process."""
     global _tty_lock, _cell_size_cache, _cell_size_lock
 
-    if self._tty_lock:
-        _tty_lock = self._tty_lock
-    if self._cell_size_cache:
-        _cell_size_cache = self._cell_size_cache
+    if getattr(process, "_tty_lock", None):
+        _tty_lock = process._tty_lock
+    if getattr(process, "_cell_size_cache", None):
+        _cell_size_cache = process._cell_size_cache
         _cell_size_lock = _cell_size_cache.get_lock()
+
+
+@no_type_check
+def _process_run_wrapper(self, *args, **kwargs):
+    _adopt_process_locks(self)
 
     return _process_run_wrapper.__wrapped__(self, *args, **kwargs)
 
@@ -841,10 +854,12 @@ if OS_IS_UNIX:
             )
 
     if _tty_fd != -1:
-        Process.start = wraps(Process.start)(  # type: ignore[method-assign]
+        # `BaseProcess` (not just `Process`), so that the process classes of specific
+        # contexts (`get_context(method).Process`) are covered as well.
+        BaseProcess.start = wraps(BaseProcess.start)(  # type: ignore[method-assign]
             _process_start_wrapper
         )
-        Process.run = wraps(Process.run)(  # type: ignore[method-assign]
+        BaseProcess.run = wraps(BaseProcess.run)(  # type: ignore[method-assign]
             _process_run_wrapper
         )
 
